@@ -7,6 +7,7 @@ import (
 	"strings"
 	"testing"
 
+	"github.com/beevik/etree"
 	saml2 "github.com/russellhaering/gosaml2"
 	"github.com/russellhaering/gosaml2/types"
 	"pgregory.net/rapid"
@@ -224,6 +225,66 @@ func genC09Mutate(t *rapid.T) C09Case {
 	return c
 }
 
+// ---- generator 2b: tree-level deletions / blanking on genuine messages (reaches missing-element paths) ----
+
+func genC09Tree(t *rapid.T) C09Case {
+	c := C09Case{Kind: "tree-mutate", Cfg: rapid.IntRange(0, 7).Draw(t, "cfg")}
+	doc := etree.NewDocument()
+	if err := doc.ReadFromString(c09Bases[rapid.IntRange(0, len(c09Bases)-1).Draw(t, "base")]); err != nil {
+		t.Fatalf("harness: %v", err)
+	}
+	root := doc.Root()
+	if rapid.Bool().Draw(t, "stripSignatures") {
+		// without signatures the profile / unmarshal code is reached under skip and unsigned paths
+		for _, e := range root.FindElements("//Signature") {
+			if e.Parent() != nil {
+				e.Parent().RemoveChild(e)
+			}
+		}
+	}
+	n := rapid.IntRange(1, 4).Draw(t, "nMut")
+	for i := 0; i < n; i++ {
+		var els []*etree.Element
+		var walk func(e *etree.Element)
+		walk = func(e *etree.Element) {
+			els = append(els, e)
+			for _, ch := range e.ChildElements() {
+				walk(ch)
+			}
+		}
+		walk(root)
+		e := els[rapid.IntRange(0, len(els)-1).Draw(t, "el")]
+		switch rapid.IntRange(0, 5).Draw(t, "treeMut") {
+		case 0:
+			if e.Parent() != nil && e != root {
+				e.Parent().RemoveChild(e)
+			}
+		case 1:
+			if len(e.Attr) > 0 {
+				k := rapid.IntRange(0, len(e.Attr)-1).Draw(t, "attr")
+				e.Attr = append(e.Attr[:k:k], e.Attr[k+1:]...)
+			}
+		case 2:
+			if len(e.Attr) > 0 {
+				e.Attr[rapid.IntRange(0, len(e.Attr)-1).Draw(t, "attr")].Value = rapid.SampledFrom([]string{"", " ", "x", "2.0", "-1", "99999999999999999999"}).Draw(t, "attrV")
+			}
+		case 3:
+			for len(e.Child) > 0 {
+				e.RemoveChildAt(0)
+			}
+		case 4:
+			if e.Parent() != nil && e != root {
+				e.Parent().InsertChildAt(e.Index(), e.Copy())
+			}
+		case 5:
+			e.SetText(rapid.SampledFrom([]string{"", "x", "AAAA", "!!"}).Draw(t, "text"))
+		}
+	}
+	s, _ := doc.WriteToString()
+	c.Input = base64.StdEncoding.EncodeToString([]byte(s))
+	return c
+}
+
 // ---- generator 3: ciphertext explorer -------------------------------------------------------
 
 type C09Cipher struct {
@@ -247,7 +308,7 @@ func genC09Cipher(t *rapid.T) C09Cipher {
 	e.Key = rapid.SliceOfN(rapid.Byte(), klen, klen).Draw(t, "cek")
 	e.Detached = rapid.Bool().Draw(t, "detached")
 	e.UseRawCipher = true
-	c.Shape = rapid.SampledFrom([]string{"random", "zeros", "valid-truncated", "bad-pad", "valid", "empty", "one-block", "short"}).Draw(t, "shape")
+	c.Shape = rapid.SampledFrom([]string{"random", "zeros", "valid-truncated", "bad-pad", "pad-then-zeros", "valid", "empty", "one-block", "short"}).Draw(t, "shape")
 	plain := []byte("<saml:Assertion xmlns:saml=\"urn:oasis:names:tc:SAML:2.0:assertion\" ID=\"_x\" Version=\"2.0\"></saml:Assertion>")
 	validKey := klen == 16 || klen == 24 || klen == 32
 	mkValid := func() []byte {
@@ -293,6 +354,28 @@ func genC09Cipher(t *rapid.T) C09Cipher {
 			raw = append(raw, pad)
 			if out, err := rawCBC(v.Key, v.IV, raw); err == nil {
 				e.RawCipher = out
+			}
+		}
+	case "pad-then-zeros":
+		// CBC plaintext: a few bytes, one pad-like byte, then only zero bytes up to the block boundary
+		if validKey {
+			v := e
+			v.UseRawCipher = false
+			v.IV = make([]byte, 16)
+			if h.IsGCM(v.DataAlg) || v.DataAlg == "" || v.DataAlg == "urn:unknown:alg" {
+				v.DataAlg = types.MethodAES256CBC
+				if len(v.Key) != 32 {
+					v.DataAlg = types.MethodAES128CBC
+				}
+				e.DataAlg = v.DataAlg
+			}
+			prefix := rapid.SliceOfN(rapid.Byte(), 0, 20).Draw(t, "prefix")
+			raw := append(append([]byte{}, prefix...), rapid.SampledFrom([]byte{1, 2, 3, 8, 15, 16, 17, 32, 255}).Draw(t, "padLike"))
+			raw = append(raw, make([]byte, (16-len(raw)%16)%16+16*rapid.IntRange(0, 1).Draw(t, "extraZeroBlock"))...)
+			if len(v.Key) == 16 || len(v.Key) == 24 || len(v.Key) == 32 {
+				if out, err := rawCBC(v.Key, v.IV, raw); err == nil {
+					e.RawCipher = out
+				}
 			}
 		}
 	case "empty":
@@ -415,10 +498,12 @@ func directDecrypt(encoded string) *h.Violation {
 func TestC09_PStrings(t *testing.T) { h.RunProp(t, "C09", genC09Strings, checkC09) }
 func TestC09_PMutate(t *testing.T)  { h.RunProp(t, "C09.mutate", genC09Mutate, checkC09) }
 func TestC09_PCipher(t *testing.T)  { h.RunProp(t, "C09.cipher", genC09Cipher, checkC09Cipher) }
+func TestC09_PTree(t *testing.T)    { h.RunProp(t, "C09.tree", genC09Tree, checkC09) }
 func TestC09_Replay(t *testing.T) {
 	h.RunReplay(t, "C09", checkC09)
 	h.RunReplay(t, "C09.mutate", checkC09)
 	h.RunReplay(t, "C09.cipher", checkC09Cipher)
+	h.RunReplay(t, "C09.tree", checkC09)
 }
 
 // TestC09_GridOffsets: exhaustive truncation at EVERY offset (and a bit flip at every offset in the
@@ -457,6 +542,37 @@ func TestC09_GridCipher(t *testing.T) {
 				c := C09Cipher{Cfg: 1, Enc: e, Shape: fmt.Sprintf("len-sweep-%02x", fill)}
 				sp := c09Config(1)
 				g := gridGenuine(sp, 1, "none")
+				root, _ := g.Tree()
+				ea, err := e.EncryptElement(nil, g.NS)
+				if err != nil {
+					t.Fatalf("harness: %v", err)
+				}
+				a := h.AssertionElements(root)[0]
+				idx := a.Index()
+				root.RemoveChildAt(idx)
+				root.InsertChildAt(idx, ea)
+				c.Input = h.Encode(h.Serialize(root, h.Layout{}), h.Presentation{})
+				cases = append(cases, c)
+			}
+		}
+	}
+	// every (prefix length, pad-like byte) followed only by zero bytes, one and two blocks, both CBC algorithms
+	for _, alg := range []string{types.MethodAES128CBC, types.MethodAES256CBC} {
+		for plen := 0; plen < 18; plen++ {
+			for _, pb := range []byte{1, 2, 7, 15, 16, 17, 200} {
+				key := make([]byte, h.KeyLen(alg))
+				raw := append(make([]byte, plen), pb)
+				for i := 0; i < plen; i++ {
+					raw[i] = 0x41
+				}
+				raw = append(raw, make([]byte, (16-len(raw)%16)%16)...)
+				out, err := rawCBC(key, make([]byte, 16), raw)
+				if err != nil {
+					t.Fatalf("harness: %v", err)
+				}
+				e := h.EncSpec{To: h.CertRef{Key: "E1", Window: "wide"}, Digest: "-", DataAlg: alg, Transport: h.Transports[plen%3], Key: key, UseRawCipher: true, RawCipher: out}
+				c := C09Cipher{Cfg: 1, Enc: e, Shape: "pad-then-zeros-sweep"}
+				g := gridGenuine(c09Config(1), 1, "none")
 				root, _ := g.Tree()
 				ea, err := e.EncryptElement(nil, g.NS)
 				if err != nil {
